@@ -48,7 +48,7 @@ def r1(ctx):
     ctx.check('decode_cookie|nonce', a[1] == 'index::index(cookie, Range{start: 6, end: 22})', 'nonce is `%s`' % a[1], dec.where(), sample=a[1])
     ctx.check('decode_cookie|ciphertext', re.match(r'^\(Result::branch\(Option::ok_or\(slice::get\(index::index\(cookie, RangeFrom\{start: 22\}\), RangeTo\{end: \(num::from_be_bytes\(\[cookie\[4\], cookie\[5\]\]\) as usize\)\}\), .*\)\) as Continue\)\.0$', a[2]) is not None,
               'ciphertext is `%s`' % a[2][:200], dec.where(), sample=a[2][:240])
-    ctx.check('decode_cookie|key-from-lookup', re.match(r'^\(Result::branch\(Option::ok_or\(slice::get\(', a[0]) is not None, 'decrypt key is `%s`' % a[0][:120], dec.where(), sample=a[0][:160])
+    ctx.check('decode_cookie|key-from-lookup', re.match(r'^\((Result::branch\(Option::ok_or\()?slice::get\(Vec::deref\(self\.keys\), ', a[0]) is not None and re.search(r' as (Continue|Some)\)\.0$', a[0]) is not None, 'decrypt key is `%s`' % a[0][:120], dec.where(), sample=a[0][:160])
 
 
 def r2(ctx):
